@@ -48,12 +48,12 @@ func TestPartitionRandom(t *testing.T) {
 	n := envInt("VERIF_N", 200)
 	w := newNdWriter(t, filepath.Join(outDir(t), "partition_trace.ndjson"))
 	defer w.close()
-	keys := []string{"a", "b", "c", "z"}
+	keys := []string{"a", "b", "c", "z", "A", "B", "Z"}
 	names := []string{"a", "b", "c"}
 	for tr := 0; tr < n; tr++ {
 		r := newRng(seed(), uint64(tr))
 		cfg := partCfg{Kind: []string{"lookup", "predicate"}[tr%2], Den: 16, Limit: r.between(1, 64),
-			Objs: map[string]partObjCfg{}, Variant: map[string]string{"unknown": "contract", "add": "contract"}}
+			Objs: map[string]partObjCfg{}, Variant: map[string]string{"unknown": "contract", "add": "contract"}, Lower: lowerMap(keys...)}
 		if r.chance(1, 3) {
 			cfg.Limit = r.between(1, 6)
 		}
@@ -65,7 +65,7 @@ func TestPartitionRandom(t *testing.T) {
 			if r.chance(1, 4) {
 				num = 0
 			}
-			o := partObjCfg{Name: r.pick(names), Num: num, Built: r.between(1, 70)}
+			o := partObjCfg{Name: r.pick(names), Num: num, Built: r.between(1, 70), Ci: r.chance(1, 3)}
 			for _, k := range keys {
 				if r.chance(1, 3) {
 					o.Match = append(o.Match, k)
